@@ -322,6 +322,11 @@ func registerReflect(e *Engine) {
 		if !ok {
 			th.runtimePanic("reflect", "reflect: call of non-function")
 		}
+		// entering user code through reflection is a scheduling point (only
+		// taken under a preemption bound > 0), placed before the argument
+		// vector is read: vectors shared between concurrent invocations show
+		// up here
+		th.yield("reflect-call")
 		in := a[1].(Slice).a
 		if len(in) != sig.Params().Len() {
 			th.runtimePanic("reflect", "reflect: Call with wrong number of input arguments")
